@@ -127,12 +127,17 @@ reg("C01",
 # (same sign?, dlo, dhi, measured seconds)
 P32_ADD_SLICES = [(True, 0, 0, 150), (True, 1, 1, 150), (True, 2, 3, 200), (True, 4, 7, 150), (True, 8, 15, 150), (True, 16, 25, 160), (True, 26, 40, 160), (True, 41, 1000, 50),
                   (False, 0, 0, 250), (False, 1, 1, 300), (False, 2, 3, 150), (False, 4, 7, 150), (False, 8, 40, 160), (False, 41, 1000, 80)]
+_si = 0
 for op in ("add", "sub"):
     for same, lo, hi, sec in P32_ADD_SLICES:
         nm = "c01_p32_%s_%s_d%d_%d" % (op, "same" if same else "diff", lo, hi)
-        reg("C01", H(nm, "c01::p32::%s_slice" % op, gen="%s, %d, %d" % ("true" if same else "false", lo, hi), unwind=33, timeout=max(8 * sec, 600),
-                     tier="quick" if sec <= 260 else "thorough", funcs=["P32E2::%s" % op], space_bits=64, slice_of="P32E2 %s over all real pairs" % op,
+        always = lo >= 41
+        # quick runs the cheap far-apart slices always and a seed-rotated quarter of the others (every slice is
+        # reached within four consecutive seeds); thorough runs the whole partition
+        reg("C01", H(nm, "c01::p32::%s_slice" % op, gen="%s, %d, %d" % ("true" if same else "false", lo, hi), unwind=33, timeout=max(8 * sec, 1200),
+                     tier="quick" if always else "thorough", rot=None if always else (_si, 4), funcs=["P32E2::%s" % op], space_bits=64, slice_of="P32E2 %s over all real pairs" % op,
                      bound="real operands, effective signs %s, |scale(a)-scale(b)| in [%d,%d]" % ("equal" if same else "opposite", lo, hi)))
+        _si += 1
 
 # ------------------------------------------------------------------ C04 (one inductive step from an arbitrary state)
 reg("C04",
